@@ -99,6 +99,13 @@ def commute(case, build, what="model", post=None):
     r = same_model(sub, D, what)
     if r is not None:
         return r
+    # "the same model" also as a starting point for further work: the substituted model must go on numbering its
+    # constraint ancillas where the directly built one does (otherwise the next inequality reuses '__a0')
+    na_s, na_d = getattr(sub, "num_ancillas", None), getattr(D, "num_ancillas", None)
+    if na_s != na_d:
+        return Fail("%s: after subs num_ancillas is %r, the directly built model has %r (ancillas present: %r)"
+                    % (what, na_s, na_d, sorted(str(v) for v in getattr(sub, "variables", ()) if str(v).startswith("__a"))),
+                    key="subs-ancilla-counter")
     names = sorted(case["values"])
     if len(names) > 1:
         # one symbol at a time: the intermediate model keeps the other symbol; finishing the substitution must
